@@ -9,11 +9,11 @@ Import ListNotations.
 Definition module_refs (names : list str) (refs : list str) : list str := filter (fun x => smemb x names) (dedup refs).
 (* the observed constants (names in order, references of each) are those of the model run under the orders
    reconstructed from the observed order of the struct schemas *)
-Definition c09_module_corr (p : project) (text : str) : bool :=
+Definition c09_module_corr (m : list (str * str)) (p : project) (text : str) : bool :=
   let '(cs, _) := observe_consts text in
   let structs := map (fun c => strip_schema (fst c))
                      (filter (fun c => ends_in "Schema" (fst c) && negb (is_params (fst c))) cs) in
-  match zod_consts (o_obs structs) p with
+  match zod_consts_m m (o_obs structs) p with
   | Some ms =>
       let names := map fst ms in
       (if list_eq_dec str_dec (map fst cs) names then true else false)
